@@ -53,7 +53,9 @@ package aztec
 //@   attr fresh_bitlist totalBits
 //@   attr split wordSize 4 6 8 10 12
 //@   requires bits != nil && (wordSize == 4 || wordSize == 6 || wordSize == 8 || wordSize == 10 || wordSize == 12)
-//@   requires bits.count % wordSize == 0 && bits.count / wordSize < totalBits / wordSize && 0 <= bits.count && totalBits <= 100000 && totalBits / wordSize - bits.count / wordSize < (1 << wordSize)
+//@   requires bits.count % wordSize == 0 && bits.count / wordSize < totalBits / wordSize
+//@   requires 0 <= bits.count
+//@   requires totalBits <= 100000 && totalBits / wordSize < ((wordSize == 4) ? 16 : ((wordSize == 6) ? 64 : ((wordSize == 8) ? 256 : ((wordSize == 10) ? 1024 : 4096))))
 //@   ensures result != nil && result.count == totalBits
 //@   ensures wordSize <= 8 ==> (forall k int :: 0 <= k && k < bits.count ==> result.model[totalBits % wordSize + k] == bits.model[k])
 //@   ensures forall k int :: 0 <= k && k < totalBits % wordSize ==> !result.model[k]
